@@ -97,6 +97,13 @@ def trace_struct(sample, feature, order, multiindex=(), flags=None, nlist=1):
                     cid = CoordId("sorted", cid0) if (flags.get("reordered") and j == 0) else cid0
                     x._coords[d] = LCoord(d, cid, Xs[0]._ext[d], Xs[0]._coords[d].index_kind, Xs[0]._coords[d].levels)
                     x._ext[d] = Xs[0]._ext[d]
+        if flags.get("same_sizes"):
+            # items of equal extents but with their own labels: nothing but the labels tells them apart
+            for x in Xs[1:]:
+                for d in feature:
+                    c0 = x._coords[d]
+                    x._ext[d] = Xs[0]._ext[d]
+                    x._coords[d] = LCoord(d, c0.cid, Xs[0]._ext[d], c0.index_kind, c0.levels)
         X = Xs if nlist > 1 else Xs[0]
         W = None
         if flags.get("weights"):
@@ -135,6 +142,7 @@ def structures(tier):
     out.append(dict(sample=("t1",), feature=("a", "b"), order=("t1", "a", "b"), nlist=2))
     out.append(dict(sample=("t1", "t2"), feature=("a",), order=("a", "t1", "t2"), nlist=3))
     out.append(dict(sample=("t1",), feature=("a", "b"), order=("t1", "a", "b"), nlist=2, flags=dict(reordered=True)))
+    out.append(dict(sample=("t1",), feature=("a",), order=("t1", "a"), nlist=12, flags=dict(same_sizes=True)))       # more items than one decimal digit counts
     return out
 
 
